@@ -144,12 +144,33 @@ def gen_problem(rng):
                 params["growing.num_new_dirns_each_iter"] = int(rng.integers(1, 3))
         elif v < 0.7:
             params["init.run_in_parallel"] = True
+    family = None
+    if n >= 2 and rng.random() < 0.15:
+        # growing phase under projections (needs random directions), with perturbed trust-region steps and hard restarts that
+        # re-evaluate the best point (`use_old_rk` off): stored interpolation points are kept UNPROJECTED and every use of one as
+        # an evaluation point or as the returned x goes through Model.xpt / as_absolute_coordinates (seeded C09_9, C03_10)
+        family = "growing-hard"
+        params["init.random_initial_directions"] = True
+        params.pop("init.run_in_parallel", None)
+        params["growing.ndirs_initial"] = int(rng.integers(1, n))
+        params["growing.num_new_dirns_each_iter"] = int(rng.integers(0, 3))
+        if rng.random() < 0.6:
+            params["growing.perturb_trust_region_step"] = True
+            params["growing.full_rank.use_full_rank_interp"] = False
+        for k in ("regression.num_extra_steps", "regression.momentum_extra_steps", "restarts.increase_npt", "restarts.max_npt"):
+            params.pop(k, None)
+        if rng.random() < 0.7:
+            restarts = "hard"
+            params["restarts.use_restarts"] = True
+            params["restarts.use_soft_restarts"] = False
+            params["restarts.hard.use_old_rk"] = False
     if rng.random() < 0.3:
         params["dykstra.d_tol"] = float([1e-6, 1e-8, 1e-12][int(rng.integers(0, 3))])
     if rng.random() < 0.2:
         params["dykstra.max_iters"] = int([1, 3, 20, 1000][int(rng.integers(0, 4))])
     return {"n": n, "m": m, "A": A, "b": b, "kind": kind, "specs": specs, "bounds": bounds, "x0": x0, "x0kind": x0kind,
-            "maxfun": int(rng.integers(2, 61)), "rhoend": float([1e-8, 1e-3, 1e-2][int(rng.integers(0, 3))]),
+            "maxfun": int(rng.integers(2, 61)) if family is None else int(rng.integers(20, 81)),
+            "rhoend": float([1e-8, 1e-3, 1e-2][int(rng.integers(0, 3))]) if family is None else 1e-2,
             "rhobeg": float([0.1, 0.5, 1.0][int(rng.integers(0, 3))]),
             "nsamples": int(1 if rng.random() < 0.8 else 2), "params": params, "restarts": restarts,
             "np_seed": int(rng.integers(0, 2 ** 31 - 1))}
